@@ -43,7 +43,7 @@ def dump_lines(votes: Dict[Tuple[Candidate, ...], Number],
         candidates = votelib.util.all_ranked_candidates(votes)
     yield _dump_numline([len(candidates), n_seats])
     for i in _get_withdrawn_inds(candidates):
-        yield _dump_numline([-(i+i)])
+        yield _dump_numline([-(i+1)])
     for rvote, n_votes in votes.items():
         yield _dump_numline(_dump_vote(rvote, candidates, n_votes))
     yield _dump_numline([0])
